@@ -28,6 +28,7 @@ type Cfg struct {
 	PoolLeaves   []string                      // pool kinds ("pool:Name") usable as leaves
 	PoolKeys     []string                      // pool kinds usable as map keys
 	PoolGen      map[string]func(*rapid.T) Val // value generators for pool kinds
+	Fallbacks    bool                          // occasionally add an `embed` fallback field (map[string]T or jsontext.Value)
 	LegacyString bool                          // allow the `string` option on bool/string fields too (valid only with v1 semantics)
 }
 
@@ -255,6 +256,18 @@ func (g *descGen) strctIn(depth int, used map[string]bool) *Desc {
 			f.Tag, f.HasTag = tagFor(name, hasName, opts), true
 		}
 		d.Fields = append(d.Fields, f)
+	}
+	if g.cfg.Fallbacks && !big && rapid.IntRange(0, 3).Draw(t, "fallback?") == 0 {
+		ft := &Desc{K: "raw"}
+		switch rapid.IntRange(0, 3).Draw(t, "fallbackkind") {
+		case 0:
+			ft = &Desc{K: "map", Key: &Desc{K: "string"}, Elem: &Desc{K: "any"}}
+		case 1:
+			ft = &Desc{K: "map", Key: &Desc{K: "string"}, Elem: &Desc{K: "int"}}
+		case 2:
+			ft = &Desc{K: "map", Key: &Desc{K: "string"}, Elem: g.desc(1)}
+		}
+		d.Fields = append(d.Fields, Field{Name: fmt.Sprintf("Fb%d", d.ID), Tag: ",embed", HasTag: true, T: ft})
 	}
 	return d
 }
